@@ -19,11 +19,12 @@ import Driver.TreeIO
 import Driver.RuleIO
 import Driver.Loader
 import Driver.EditDoc
+import Driver.StringCase
 
 open Lean Driver
 
 def allOps : List (String × Handler) :=
-  notationOps ++ indentOps ++ printOps ++ suppressOps ++ spliceOps ++ topoOps ++ selectOps ++ workerOps ++ lspOps ++ frontendsOps ++ loaderOps ++ editDocOps
+  notationOps ++ indentOps ++ printOps ++ suppressOps ++ spliceOps ++ topoOps ++ selectOps ++ workerOps ++ lspOps ++ frontendsOps ++ loaderOps ++ editDocOps ++ stringCaseOps
 
 /-- ops that read or extend the driver state (registered documents) -/
 def allStateOps : List (String × SHandler) :=
